@@ -261,6 +261,37 @@ static void long_stream_renorm_scenario(void)
     LZ4_freeStream(fs); free(big[0]); free(big[1]); free(blk[0]); free(blk[1]); free(dst); free(out);
 }
 
+/* The same for the HC stream (the "Check overflow" branch of LZ4_compressHC_continue_generic, taken once the stream index passes 2 GB: the stream is
+ * re-based on the last 64 KB of its prefix).  Phase 2 lays its 256 KB blocks CONTIGUOUSLY, so the prefix is several MB when the limit is crossed
+ * and "the last 64 KB" differs from any other part of it; every block is decoded in prefix mode against the 64 KB in front of it. */
+static void long_stream_renorm_scenario_hc(int level)
+{
+    enum { BIG = 4 << 20, BS = 256 << 10, TBL = 64 << 10, RECS = 2048, NB = 24 };
+    LZ4_streamHC_t* hs = LZ4_createStreamHC(); u8* big[2]; u8* arena = xalloc((size_t)NB * BS); u8* oar = xalloc((size_t)NB * BS); u8* dst = xalloc((size_t)LZ4_compressBound(BIG));
+    static u8 keys[RECS][8], fixedv[RECS][24]; unsigned long long fed = 0; int b, i, k, turn = 0; rec_t r;
+    for (i = 0; i < RECS; i++) { for (k = 0; k < 8; k++) keys[i][k] = (u8)rnd(); for (k = 0; k < 24; k++) fixedv[i][k] = (u8)rnd(); }
+    for (b = 0; b < 2; b++) { big[b] = xalloc(BIG); for (i = 0; i < BIG; i++) big[b][i] = (u8)("abcdefgh"[(i + b) & 7]); }
+    LZ4_resetStreamHC_fast(hs, level);
+    while (fed + BIG < 0x80000000ULL - (3u << 20)) { int c = LZ4_compress_HC_continue(hs, (const char*)big[turn], (char*)dst, BIG, LZ4_compressBound(BIG)); n_calls++; if (c <= 0) break; fed += BIG; turn ^= 1; }
+    for (b = 0; b < NB; b++) {
+        u8* cur = arena + (size_t)b * BS; int c, d; size_t hsz = b == 0 ? 0 : ((size_t)b * BS < 65536 ? (size_t)b * BS : 65536);
+        for (i = 0; i < RECS; i++) { int q = (i + b) % RECS; memcpy(cur + 32 * i, keys[q], 8); memcpy(cur + 32 * i + 8, fixedv[q], 24); }
+        for (i = TBL; i < BS - TBL; i++) cur[i] = (u8)("ACGT"[rnd() & 3]);
+        for (i = 0; i < RECS; i++) { memcpy(cur + (BS - TBL) + 32 * i, keys[(i + b) % RECS], 8); for (k = 0; k < 24; k++) cur[(BS - TBL) + 32 * i + 8 + k] = (u8)rnd(); }
+        rec_begin(&r, OP_STREAMBLOCK); cur_set(&r);
+        c = LZ4_compress_HC_continue(hs, (const char*)cur, (char*)dst, BS, LZ4_compressBound(BS)); n_calls++;
+        if (fed < 0x80000000ULL && fed + BS >= 0x80000000ULL) n_renorm++;
+        fed += BS;
+        if (c <= 0) { c_fail(&r, "continue_failed_at_bound"); break; }
+        d = b == 0 ? LZ4_decompress_safe_usingDict((const char*)dst, (char*)oar, c, BS, (const char*)big[turn ^ 1], BIG)
+                   : LZ4_decompress_safe_usingDict((const char*)dst, (char*)(oar + (size_t)b * BS), c, BS, (const char*)(oar + (size_t)b * BS - hsz), (int)hsz);
+        n_blocks++;
+        if (d != BS || memcmp(oar + (size_t)b * BS, cur, BS) != 0) { c_fail(&r, "block_does_not_decode_against_history"); break; }
+        cur_clear();
+    }
+    LZ4_freeStreamHC(hs); free(big[0]); free(big[1]); free(arena); free(oar); free(dst);
+}
+
 /* ---- C18: a history of LZ4_compress_fast_extState_fastReset calls on ONE state (the documented use of _fastReset), recorded whole (op 11) so that the
  * Lean model of the reused state (Model/FastR.lean: LZ4_prepareTable, dictSmall, 16-bit table) replays it; every block must decode with NO history.
  * Inputs: log-like records sharing long prefixes, laid out back to back in one buffer (what precedes an input in memory resembles it), sizes mostly
@@ -339,6 +370,7 @@ int main(int argc, char** argv)
     for (i = 0; i < nh; i++) run_history(i % 2, 20 + (int)rndn(40), mode, dictbuf);
     if (!strcmp(mode, "c11")) for (i = 0; i < (thorough ? 3000 : 200); i++) ring_restart_scenario(i % 4 == 3);
     if (!strcmp(mode, "c11")) { int reps = thorough ? 3 : 1; while (reps--) long_stream_renorm_scenario(); }
+    if (!strcmp(mode, "c11")) { long_stream_renorm_scenario_hc(thorough ? 2 : 3); if (thorough) { long_stream_renorm_scenario_hc(3); long_stream_renorm_scenario_hc(9); } }
     if (!strcmp(mode, "c18")) for (i = 0; i < (thorough ? 20000 : 1500); i++) fastreset_history();
     harness_done();
     stat_u("calls", n_calls); stat_u("blocks_checked", n_blocks); stat_u("limited_output_failures", n_fail_ret0); stat_u("saveDict", n_saves); stat_u("loadDict", n_loads); stat_u("attach", n_attach);
